@@ -137,7 +137,7 @@ func (p *Pool) spawn() (*worker, error) {
 		return nil, err
 	}
 	atomic.AddInt64(&spawnedTotal, 1)
-	return &worker{cmd: cmd, in: in, out: bufio.NewReaderSize(out, 1<<20), errBuf: eb}, nil
+	return &worker{cmd: cmd, in: in, out: bufio.NewReaderSize(out, 64<<10), errBuf: eb}, nil
 }
 
 func (w *worker) kill() {
